@@ -8,6 +8,7 @@ import (
 	"net/url"
 	"path"
 	"strings"
+	"sync"
 	"time"
 
 	"github.com/AdguardTeam/AdGuardDNS/internal/agdcache"
@@ -95,8 +96,14 @@ type cacheItem struct {
 // Filter is a filter that matches hosts by their hashes based on a hash-prefix
 // table.  It should be initially refreshed with [Filter.RefreshInitial].
 type Filter struct {
-	logger   *slog.Logger
-	cloner   *dnsmsg.Cloner
+	logger *slog.Logger
+	cloner *dnsmsg.Cloner
+
+	// mu protects hashes and resCache from being used by requests while the
+	// filter is being refreshed, so that results computed using the previous
+	// hashes cannot be stored in the cleared cache.
+	mu *sync.RWMutex
+
 	hashes   *Storage
 	refr     *refreshable.Refreshable
 	errColl  errcoll.Interface
@@ -128,6 +135,7 @@ func NewFilter(c *FilterConfig) (f *Filter, err error) {
 	f = &Filter{
 		logger:   c.Logger,
 		cloner:   c.Cloner,
+		mu:       &sync.RWMutex{},
 		hashes:   c.Hashes,
 		errColl:  c.ErrColl,
 		metrics:  c.Metrics,
@@ -173,6 +181,9 @@ func (f *Filter) FilterRequest(
 	ctx context.Context,
 	req *internal.Request,
 ) (r internal.Result, err error) {
+	f.mu.RLock()
+	defer f.mu.RUnlock()
+
 	host, qt, cl := req.Host, req.QType, req.QClass
 
 	cacheKey := internal.NewCacheKey(host, qt, cl, false)
@@ -442,6 +453,9 @@ func (f *Filter) refresh(ctx context.Context, acceptStale bool) (err error) {
 		// Don't wrap the error, because it's informative enough as is.
 		return err
 	}
+
+	f.mu.Lock()
+	defer f.mu.Unlock()
 
 	count, err = f.hashes.Reset(text)
 	if err != nil {
